@@ -1,9 +1,18 @@
 package c19
 
 import (
+	"bytes"
+	"context"
+	"encoding/json"
+	"fmt"
 	"math/rand"
+	"os"
+	"os/exec"
 	"runtime"
+	"sort"
+	"strings"
 	"sync"
+	"time"
 
 	. "verif/harness/gen"
 	"verif/harness/run"
@@ -46,6 +55,8 @@ type MixCfg struct {
 	Focus               int
 	Cold                bool
 	Ref                 []string
+	Fresh               bool // also compare with the same calls run in fresh processes (in reverse order; and single calls, one process each)
+	Singles             int  // how many single-call processes
 }
 
 func RunMix(poolSeed, batchSeed int64, k, g int, schedSeed int64, focus int) MixResult {
@@ -57,8 +68,8 @@ func SoloRef(poolSeed, batchSeed int64, k, focus int) []string {
 	p := NewPool(poolSeed)
 	batch := Batch(rand.New(rand.NewSource(batchSeed)), k, focus)
 	out := make([]string, len(batch))
-	for i, in := range batch {
-		out[i] = RunInst(p, in)
+	for i := len(batch) - 1; i >= 0; i-- { // in reverse order: not the history of the in-process solo passes
+		out[i] = RunInst(p, batch[i])
 	}
 	return out
 }
@@ -140,6 +151,9 @@ func RunMixCfg(c MixCfg) MixResult {
 			bad(" (run alone again after the concurrent phase)", post[i])
 		}
 	}
+	if c.Fresh && k > 0 {
+		freshCompare(c, batch, ref, &res)
+	}
 	res.Unmodified = before == afterPre && before == after && before == afterPost
 	switch {
 	case before != afterPre:
@@ -150,6 +164,205 @@ func RunMixCfg(c MixCfg) MixResult {
 		res.Bad = append(res.Bad, "inputs modified by a sequential call: "+firstDiff(before, afterPost))
 	}
 	return res
+}
+
+// ---------- the baseline computed ALONE: fresh processes ----------
+//
+// "Returns the same result it returns when run alone" is judged against calls made in processes in which nothing else has run: state kept
+// between calls (a memo table keyed on part of the arguments) pollutes every in-process baseline in the same way, whatever the order of the
+// phases. The harness binary re-executes itself (`<binary> -c19-solo`, request on stdin, see init below) and the child performs the calls
+// of the request, in the order of the request, on a pool built from the same seed.
+//   history 1: the whole batch in REVERSE order of the in-process solo pass (so the first call of the child is not the first call of the parent);
+//   history 2: single calls, one process per call (the call is the only call ever made in its process).
+// A result that differs from the in-process reference is a property failure; the offending-call text records both histories (order matters).
+
+type soloReq struct {
+	PoolSeed  int64 `json:"pool_seed"`
+	BatchSeed int64 `json:"batch_seed"`
+	K         int   `json:"k"`
+	Focus     int   `json:"focus"`
+	Order     []int `json:"order"` // indices into the batch, in the order in which the child makes the calls
+}
+
+func init() {
+	if len(os.Args) >= 2 && os.Args[1] == "-c19-mix" {
+		var c MixCfg
+		if err := json.NewDecoder(os.Stdin).Decode(&c); err != nil {
+			fmt.Fprintln(os.Stderr, "c19-mix: bad request:", err)
+			os.Exit(3)
+		}
+		c.Fresh = false
+		b, _ := json.Marshal(RunMixCfg(c))
+		os.Stdout.Write(b)
+		os.Exit(0)
+	}
+	if len(os.Args) >= 2 && os.Args[1] == "-c19-solo" {
+		var q soloReq
+		if err := json.NewDecoder(os.Stdin).Decode(&q); err != nil {
+			fmt.Fprintln(os.Stderr, "c19-solo: bad request:", err)
+			os.Exit(3)
+		}
+		p := NewPool(q.PoolSeed)
+		batch := Batch(rand.New(rand.NewSource(q.BatchSeed)), q.K, q.Focus)
+		out := make([]string, len(q.Order))
+		for j, i := range q.Order {
+			if i < 0 || i >= len(batch) {
+				fmt.Fprintln(os.Stderr, "c19-solo: index out of range")
+				os.Exit(3)
+			}
+			out[j] = RunInst(p, batch[i])
+		}
+		b, _ := json.Marshal(out)
+		os.Stdout.Write(b)
+		os.Exit(0)
+	}
+}
+
+// MixInChild runs one experiment (solo pass, concurrent phase, solo pass) in a fresh process, so that a case does not depend on the cases
+// that ran before it (package-level state of the library cannot be reset) and a replay of the case reproduces it. A process that dies (the
+// runtime's "fatal error: concurrent map writes" cannot be recovered) is a failed experiment, not a failed harness.
+func MixInChild(c MixCfg) MixResult {
+	k := c.K
+	if k < 0 {
+		k = 0
+	}
+	dead := func(why string) MixResult {
+		return MixResult{Flags: make([]bool, k), Solo: make([]string, k), Bad: []string{"the process that ran the mix " + why}}
+	}
+	self, err := os.Executable()
+	if err != nil {
+		panic("harness: c19: " + err.Error())
+	}
+	req, _ := json.Marshal(c)
+	ctx, cancel := context.WithTimeout(context.Background(), 8*time.Second)
+	defer cancel()
+	cmd := exec.CommandContext(ctx, self, "-c19-mix")
+	cmd.Stdin = bytes.NewReader(req)
+	var so, se bytes.Buffer
+	cmd.Stdout, cmd.Stderr = &so, &se
+	if err := cmd.Run(); err != nil {
+		if ctx.Err() != nil {
+			return dead("did not finish within 8 s")
+		}
+		msg := se.String()
+		if i := strings.Index(msg, "fatal error:"); i >= 0 {
+			msg = msg[i:]
+		}
+		if i := strings.Index(msg, "\n"); i >= 0 {
+			msg = msg[:i]
+		}
+		return dead("died: " + trunc(msg, 200) + " (" + err.Error() + ")")
+	}
+	var m MixResult
+	if err := json.Unmarshal(so.Bytes(), &m); err != nil || len(m.Flags) != k || len(m.Solo) != k {
+		panic("harness: c19: bad answer of the mix process: " + trunc(so.String(), 200))
+	}
+	return m
+}
+
+// FreshSolo runs the calls batch[order[0]], batch[order[1]], ... in one fresh process and returns their results (aligned with order).
+func FreshSolo(poolSeed, batchSeed int64, k, focus int, order []int) ([]string, error) {
+	self, err := os.Executable()
+	if err != nil {
+		return nil, err
+	}
+	req, _ := json.Marshal(soloReq{PoolSeed: poolSeed, BatchSeed: batchSeed, K: k, Focus: focus, Order: order})
+	cmd := exec.Command(self, "-c19-solo")
+	cmd.Stdin = bytes.NewReader(req)
+	var so, se bytes.Buffer
+	cmd.Stdout, cmd.Stderr = &so, &se
+	if err := cmd.Run(); err != nil {
+		return nil, fmt.Errorf("%v: %s", err, trunc(se.String(), 300))
+	}
+	var out []string
+	if err := json.Unmarshal(so.Bytes(), &out); err != nil || len(out) != len(order) {
+		return nil, fmt.Errorf("bad answer of the fresh process: %v", err)
+	}
+	return out, nil
+}
+
+// describe: the calls of the same catalogue entry that precede position `upto+1` of a history (those are the calls that can have left
+// state behind for it; the full history is the batch in the stated order), with their argument and key seeds
+func describe(batch []Inst, order []int, upto int, idx int) string {
+	var b strings.Builder
+	n, others := 0, 0
+	for j, i := range order {
+		if j > upto {
+			break
+		}
+		if batch[i].Idx != idx {
+			others++
+			continue
+		}
+		n++
+		if n <= 8 {
+			if n > 1 {
+				b.WriteString(", ")
+			}
+			fmt.Fprintf(&b, "#%d(args %d key %d)", i, batch[i].Seed%1000000, batch[i].Key%1000000)
+		}
+	}
+	if n == 0 {
+		return fmt.Sprintf("no earlier call of this function, %d other calls", others)
+	}
+	return fmt.Sprintf("%d earlier call(s) of this function: %s; %d other calls", n, b.String(), others)
+}
+
+func freshCompare(c MixCfg, batch []Inst, ref []string, res *MixResult) {
+	k := len(batch)
+	fail := func(i int, what, got string) {
+		name := Catalogue[batch[i].Idx].Name
+		if res.Flags[i] {
+			res.Bad = append(res.Bad, name+what)
+			res.Diff = append(res.Diff, Mismatch{Call: name + what, Index: batch[i].Idx, ArgSeed: batch[i].Seed, Solo: trunc(ref[i], 600), Parallel: trunc(got, 600)})
+		}
+		res.Flags[i] = false
+	}
+	// history 1: reverse order
+	order := make([]int, k)
+	for j := range order {
+		order[j] = k - 1 - j
+	}
+	got, err := FreshSolo(c.PoolSeed, c.BatchSeed, c.K, c.Focus, order)
+	if err != nil {
+		panic("harness: c19 fresh process: " + err.Error())
+	}
+	for j, i := range order {
+		if got[j] != ref[i] {
+			fail(i, fmt.Sprintf(" [call #%d (args %d key %d): in a fresh process that makes the calls of the batch in the order #%d..#0 (%s) it returns %s; in the process that ran the mix (alone, order #0..#%d: %s) it returned %s]",
+				i, batch[i].Seed%1000000, batch[i].Key%1000000, k-1, describe(batch, order, j-1, batch[i].Idx), trunc(got[j], 100), k-1, describe(batch, seq(i), i-1, batch[i].Idx), trunc(ref[i], 100)), got[j])
+		}
+	}
+	// history 2: the only call ever made in its process; related calls (shared key seed) first
+	n := c.Singles
+	if n > k {
+		n = k
+	}
+	r := rand.New(rand.NewSource(c.SchedSeed ^ 0x5151))
+	cand := r.Perm(k)
+	keyCount := map[int64]int{}
+	for _, in := range batch {
+		keyCount[in.Key]++
+	}
+	sort.SliceStable(cand, func(a, b int) bool { return keyCount[batch[cand[a]].Key] > 1 && keyCount[batch[cand[b]].Key] <= 1 })
+	for _, i := range cand[:n] {
+		one, err := FreshSolo(c.PoolSeed, c.BatchSeed, c.K, c.Focus, []int{i})
+		if err != nil {
+			panic("harness: c19 fresh process: " + err.Error())
+		}
+		if one[0] != ref[i] {
+			fail(i, fmt.Sprintf(" [call #%d (args %d key %d): as the only call of a fresh process it returns %s; in the process that ran the mix (alone, order #0..#%d: %s) it returned %s]",
+				i, batch[i].Seed%1000000, batch[i].Key%1000000, trunc(one[0], 100), k-1, describe(batch, seq(i), i-1, batch[i].Idx), trunc(ref[i], 100)), one[0])
+		}
+	}
+}
+
+func seq(n int) []int {
+	o := make([]int, n+1)
+	for i := range o {
+		o[i] = i
+	}
+	return o
 }
 
 func firstDiff(a, b string) string {
@@ -208,9 +421,20 @@ func fnParallelMix() *run.Fn {
 				reps = 60
 			}
 		}
-		m := RunMix(ps, bs, k, g, ps^bs, focus)
+		// every experiment runs in a fresh process (self-contained cases, reproducible replays); its solo results are then compared with
+		// the same calls made by other fresh processes (the batch in reverse order; one call alone)
+		cfg := MixCfg{PoolSeed: ps, BatchSeed: bs, K: k, G: g, SchedSeed: ps ^ bs, Focus: focus, Singles: 1}
+		one := func() MixResult {
+			m := MixInChild(cfg)
+			if kk := len(m.Flags); kk > 0 && len(m.Solo) == kk && !(len(m.Bad) == 1 && strings.HasPrefix(m.Bad[0], "the process that ran the mix")) {
+				freshCompare(cfg, Batch(rand.New(rand.NewSource(bs)), kk, focus), m.Solo, &m)
+			}
+			return m
+		}
+		m := one()
 		for i := 1; i < reps && len(m.Bad) == 0 && m.Unmodified; i++ {
-			m = RunMix(ps, bs, k, g, (ps^bs)+int64(i), focus)
+			cfg.SchedSeed = (ps ^ bs) + int64(i)
+			m = one()
 		}
 		fl := make([]w.Val, len(m.Flags))
 		for i, f := range m.Flags {
@@ -218,7 +442,7 @@ func fnParallelMix() *run.Fn {
 		}
 		bad := make([]w.Val, len(m.Bad))
 		for i, s := range m.Bad {
-			bad[i] = w.S(trunc(s, 400))
+			bad[i] = w.S(trunc(s, 900))
 		}
 		obs := w.L(w.List(fl), w.B(m.Unmodified), w.List(bad))
 		if len(m.Bad) > 0 || !m.Unmodified {
@@ -231,7 +455,7 @@ func fnParallelMix() *run.Fn {
 }
 
 func init() {
-	Scale["C19"] = 500
+	Scale["C19"] = 400
 	Registry["C19"] = func(r *run.Runner, g *Gen, n int) {
 		r.Register(fnParallelMix())
 		for i := 0; i < n; i++ {
@@ -247,10 +471,15 @@ func init() {
 				k = 0
 			}
 			focus := 0
-			if g.Intn(3) == 0 {
+			switch g.Intn(4) {
+			case 0:
 				focus = 1 // a storm of wrapping shifts and edge neighbourhoods at mixed zooms
 				k = 24 + g.Intn(40)
 				gor = 8 + g.Intn(9)
+			case 1:
+				focus = 2 // groups of related calls: one function, the same key-like arguments, different latitude rows
+				k = 6 + g.Intn(30)
+				gor = 2 + g.Intn(10)
 			}
 			tags := []string{Tag("goroutines=%d", gor), Tag("batch<=%d", (k/16+1)*16), Tag("focus=%d", focus)}
 			r.Run(run.Case{Prop: "C19", Fn: "ParallelMix", Tags: tags, Trivial: gor <= 1 || k == 0,
